@@ -38,9 +38,32 @@ FT_ENV = dict(os.environ, GOMAXPROCS="2")
 def run_ft(binary, lines, chunk=120, env=None, timeout=600):
     """One process per <chunk> scripts (leaked tickers of earlier scenarios cost clock jumps)."""
     out = []
-    for i in range(0, len(lines), chunk):
-        out += common.run_impl(binary, lines[i:i + chunk], env=env or FT_ENV, timeout=timeout)
+    group = []
+
+    def flush():
+        if group:
+            out.extend(common.run_impl(binary, list(group), env=env or FT_ENV, timeout=timeout))
+            del group[:]
+
+    for l in lines:
+        # a script whose horizon is a large part of the clock's range (expiries >= 2^61 ns) gets a process of its own:
+        # the virtual clock only moves forward, a second such script would leave the range of time.Time
+        if _huge(l):
+            flush()
+            out.extend(common.run_impl(binary, [l], env=env or FT_ENV, timeout=120))
+            continue
+        group.append(l)
+        if len(group) >= chunk:
+            flush()
+    flush()
     return out
+
+
+def _huge(line):
+    for tok in line.split()[:12]:
+        if tok.startswith(("ne=", "end=")) and int(tok.split("=", 1)[1]) >= 2 ** 61:
+            return True
+    return False
 
 
 # ------------------------------------------------------------------ scripts
@@ -99,6 +122,8 @@ def parse_line(line):
                 acts.append((int(p[0]), p[1], int(p[2]), 0, 0))
     sc = Script(int(f["ne"]), int(f["ee"]), int(f["par"]), int(f["jcs"]), keys, ld, acts, int(f.get("trials", "1")))
     sc.end, sc.wd = int(f["end"]), int(f["wd"])
+    if sc.ne >= 2 ** 61:
+        sc.meta["end"], sc.meta["wd"] = sc.end, sc.wd   # line() keeps the horizon of the parsed line (the default formula leaves int64)
     return sc
 
 
@@ -535,7 +560,12 @@ def monitor_c05(sc, log):
             if fin is not None and (fin[1], fin[2]) != (v, e):
                 return ("fresh-not-served", "Load action %d at %d: key %d holds the fresh result (%d,%d) passed to Set at %d (age %d < E=%d) but the returned Future resolved to (%d,%d)" % (
                     a, tc, k, v, e, u, tc - u, expire_of(sc, e), fin[1], fin[2]))
-            if any(st[0] == k and st[2] == tc for st in log.starts):
+            # a loader start at tc may belong to a job that an EARLIER Load of the key queued while every
+            # worker was busy (its Future displaced by the Set since): only a start that no earlier Load can
+            # account for (each Load creates at most one job) is this call's
+            earlier_loads = sum(1 for b, bct in enumerate(sc.acts) if bct[1] == "L" and bct[2] == k and b in log.call and log.call[b] < tc)
+            starts_so_far = sum(1 for st in log.starts if st[0] == k and st[2] <= tc)
+            if any(st[0] == k and st[2] == tc for st in log.starts) and starts_so_far > earlier_loads:
                 return ("needless-load", "Load action %d at %d: key %d holds the fresh result passed to Set at %d (age %d < E=%d) but a loader was started" % (
                     a, tc, k, u, tc - u, expire_of(sc, e)))
     # the property's case table for keys that are never Set, in logs where no job had to queue and
@@ -767,6 +797,31 @@ def add_boundary_probes(rng, sc, log, kinds, density=3):
                             sc.add(t, kind, rng.choice(cands))
                             continue
                     sc.add(t, kind, k)
+    return sc
+
+
+def add_first_boundary_probes(rng, sc, log, kinds):
+    """Like add_boundary_probes, but only around u+E and some way into the stale window (for expiries whose
+    2E is beyond the range of the clock)."""
+    comp = completions(sc, log)
+    used = sc.used_instants()
+    loads = [a for a, act in enumerate(sc.acts) if act[1] == "L"]
+    for k, cs in comp.items():
+        for (u, v, e, how) in cs:
+            E = expire_of(sc, e)
+            for off in (-1, 0, 1, 16 * rng.range(1, 4096)):
+                t = u + E + off
+                if t < 0 or t in used or t + 4096 >= sc.meta.get("end", t + 8192) or not rng.chance(4, 6):
+                    continue
+                used.add(t)
+                kind = rng.choice(kinds)
+                if kind in ("W", "w"):
+                    cands = [a for a in loads if sc.acts[a][2] == k and sc.acts[a][0] < t]
+                    if cands:
+                        sc.add(t, kind, rng.choice(cands))
+                        continue
+                    kind = "G"
+                sc.add(t, kind, k)
     return sc
 
 
